@@ -44,7 +44,7 @@ def merge_stats(a, b):
 
 def run_chunk(args):
     """Worker: run a chunk of seeds of one campaign."""
-    camp_name, prop, seeds, deadline = args
+    camp_name, prop, seeds, deadline, tier = args
     faulthandler.dump_traceback_later(600, exit=True)
     from . import campaigns
     from .util import digest
@@ -56,7 +56,7 @@ def run_chunk(args):
         if time.time() > deadline:
             break
         try:
-            r = campaigns.run_case(camp, seed)
+            r = campaigns.run_case(camp, seed, tier)
         except Exception:
             out['errors'].append({'seed': seed,
                                   'error': traceback.format_exc()})
@@ -214,7 +214,7 @@ def run_check(args):
                 seeds = list(range(next_seed[0], next_seed[0] + chunk))
                 next_seed[0] += chunk
                 pending.add(pool.submit(
-                    run_chunk, (camp['name'], prop, seeds, deadline)))
+                    run_chunk, (camp['name'], prop, seeds, deadline, tier)))
             max_cases = camp.get('max_cases', {}).get(tier)
             for _ in range(jobs * 2):
                 submit()
@@ -269,7 +269,8 @@ def run_check(args):
         futs = {}
         for cname, seed in redo:
             futs[pool.submit(run_chunk, (cname, prop, [seed],
-                                         time.time() + 120))] = (cname, seed)
+                                         time.time() + 120, tier))] = (
+                cname, seed)
         nondet = []
         for fut, key in futs.items():
             try:
@@ -312,9 +313,9 @@ def run_check(args):
         small, nruns = sc, 0
         if not args.no_shrink:
             try:
-                small, nruns = shrink(sc, campaigns.run_any, k)
+                small, nruns = shrink(sc, campaigns.run_any, k, prop=prop)
                 res2 = campaigns.run_any(small)
-                if vkey(res2) == k:
+                if vkey(res2, prop) == k:
                     res = res2
                 else:
                     small = sc
